@@ -4,7 +4,7 @@
    reference semantics Spec.v on generated syntax trees (end to end, all starts, all captures).  What is *proved* about
    that last link are the single-character atoms, carried all the way from the atom as written to the bytes of the
    text: a literal character (with and without i, Unicode and legacy mode), the dot, and a v-mode class expression
-   without \q strings (this one in both directions).  On any well-formed UTF-8 text, with the cursor in front of a character, the
+   without \q strings (this one in both directions), and concatenations of these atoms.  On any well-formed UTF-8 text, with the cursor in front of a character, the
    IR node the parser model emits for the class (Model/ClassSet.v, tied to parse.rs by IR equality on every generated
    expression) and the reference semantics of the class take the same decision on that character and move to
    corresponding positions - the reference from character index i to i+1, the IR from the byte offset of character i
@@ -13,7 +13,7 @@
 From RV Require Import Base.
 From RV.Model Require Import Utf8 Indexer CodePointSet Insn Fold IR Unfold ClassSet.
 From RV.Spec Require Import Spec IRSem.
-From RV.Proofs Require Import Closure ClassSetProofs Utf8Facts Utf8Valid ClassAtom.
+From RV.Proofs Require Import Closure ClassSetProofs Utf8Facts Utf8Valid ClassAtom SeqSim.
 
 Theorem c01_class_atom_is_the_reference : forall foldf unicode utf16 pre post c icase e f f' G caps,
   wf_text (pre ++ c :: post) -> vwf e = true -> sfree e = true ->
@@ -76,9 +76,49 @@ Proof.
   exact (dot_atom_step foldf unicode utf16 pre post c Hw eqclass dot_all f f' G caps).
 Qed.
 
+(* concatenations of such atoms: the reference semantics of r1 r2 ... rk (the right-nested tree the reference is given)
+   on the code points and the IR semantics of Cat [n1; ...; nk] on the bytes yield the same list of results, character
+   index j on one side being byte offset off(j) on the other - whenever every (ri, ni) is one of the atoms above
+   (atom: both decide by the same test).  Any fuel above the length of the sequence gives the reference result, any
+   fuel from 2 the IR result: neither depends on it. *)
+Theorem c01_sequence_of_atoms_is_the_reference : forall foldf unicode utf16 cs eqclass, wf_text cs ->
+  forall rs ns ts, Forall3 (atom foldf unicode utf16 cs eqclass) rs ns ts ->
+  forall f f' i caps G, (length rs <= f)%nat -> (i <= length cs)%nat ->
+  es_results (fun x => fold_code_point x unicode) eqclass (map dec cs) (S f) (seq_of rs) Fwd (i, caps) = Some (chainD cs ts [(i, caps)]) /\
+  ir_results (utf8_indexer foldf) unicode utf16 (concat cs) (S (S f')) (NCat ns) true (off cs i, G) =
+    Some (map (fun y => (off cs (fst y), snd y)) (chainD cs ts [(i, G)])).
+Proof.
+  intros foldf unicode utf16 cs eqclass Hw rs ns ts H3 f f' i caps G Hf Hi.
+  exact (sequence_of_atoms foldf unicode utf16 cs eqclass rs ns ts H3 f f' i caps G Hf Hi).
+Qed.
+
+(* the three kinds of atoms *)
+Theorem c01_atoms : forall foldf utf16 cs, wf_text cs ->
+  (forall unicode eqclass ch icase n, char_node icase unicode ch = Ok n ->
+     atom foldf unicode utf16 cs eqclass (RChar ch icase) n (char_matches (fun x => fold_code_point x unicode) ch icase)) /\
+  (forall unicode eqclass dot_all, atom foldf unicode utf16 cs eqclass (RAny dot_all) (dot_node dot_all) (fun d => dot_all || negb (is_lt d))) /\
+  (forall icase e, vwf e = true -> sfree e = true ->
+     atom foldf true utf16 cs unfold_char (RVClass e icase) (class_node icase e) (vmem fold unfold_char icase e)).
+Proof.
+  intros foldf utf16 cs Hw. split; [|split].
+  - intros unicode eqclass ch icase n En. exact (char_is_atom foldf unicode utf16 cs Hw eqclass ch icase n En).
+  - intros unicode eqclass dot_all. exact (dot_is_atom foldf unicode utf16 cs Hw eqclass dot_all).
+  - intros icase e Hwf Hsf. exact (class_is_atom foldf utf16 cs Hw icase e Hwf Hsf).
+Qed.
+
 (* Non-vacuity: [\w--[k]] under iv in front of the Kelvin sign in "a" U+212A "b": both say no; in front of "a": both yes *)
 Example c01_class_atom_example :
   let e := VSub [VEsc false [(48, 57); (65, 90); (95, 95); (97, 122)]; VUnion [VCh 107]] in
   wf_text [[97]; [226; 132; 170]; [98]] /\ vwf e = true /\ sfree e = true /\
   dec [226; 132; 170] = 8490 /\ vmem fold unfold_char true e 8490 = false /\ vmem fold unfold_char true e 97 = true.
+Proof. vm_compute. repeat split; repeat constructor. Qed.
+
+(* Non-vacuity of the sequence theorem: /k./iu on the Kelvin sign followed by "a" (bytes E2 84 AA 61): the literal becomes
+   the set of its three case variants, the reference ends at character index 2, the IR at byte offset 4 *)
+Example c01_sequence_example :
+  let cs := [[226; 132; 170]; [97]] in
+  wf_text cs /\ char_node true true 107 = Ok (NCharSet [75; 107; 8490]) /\
+  es_results (fun x => fold_code_point x true) unfold_char (map dec cs) 3 (seq_of [RChar 107 true; RAny false]) Fwd (0%nat, []) = Some [(2%nat, [])] /\
+  ir_results (utf8_indexer fold_code_point) true false (concat cs) 2 (NCat [NCharSet [75; 107; 8490]; NMatchAnyExceptLT]) true (0%nat, []) = Some [(4%nat, [])] /\
+  off cs 2 = 4%nat.
 Proof. vm_compute. repeat split; repeat constructor. Qed.
